@@ -86,6 +86,7 @@ fn main() {
     "C20" => props::c20::run(&ctx, &mut rep),
     "C22" => props::c22::run(&ctx, &mut rep),
     "C23" => props::c23::run(&ctx, &mut rep),
+    "C24" => props::c24::run(&ctx, &mut rep),
     "C27" => props::c27::run(&ctx, &mut rep),
     "C28" => props::c28::run(&ctx, &mut rep),
     "C35" => props::c35::run(&ctx, &mut rep),
